@@ -101,6 +101,9 @@ type deepCase struct {
 	delayMs int
 	// noLeaderFor > 0: the word contains a leaderless window (fNoLeader) of that many metadata requests
 	noLeaderFor int
+	// twoTopics: topics "t" and "t1" with 11 partitions each; the messages go to t/10, t1/0, t/1 and t1/10
+	// (partition bookkeeping keyed by topic and partition must keep them apart)
+	twoTopics bool
 }
 
 func deepCases(prop, tier string) []directedCase {
@@ -137,6 +140,14 @@ func deepCases(prop, tier string) []directedCase {
 				for _, fl := range []int{0, 2} {
 					out = append(out, directedCase{deep: &deepCase{word: w, flush: fl, pauseUs: pause, noLeaderFor: nl}, retry: 4, idem: prop == "C05"})
 				}
+			}
+		}
+	}
+	// two topics whose names and partition numbers concatenate to the same string
+	if prop == "C05" || prop == "C01" {
+		for _, w := range [][]int{{}, {O, O, R}} {
+			for _, fl := range []int{0, 2} {
+				out = append(out, directedCase{deep: &deepCase{word: w, flush: fl, pauseUs: 300, twoTopics: true}, retry: 4, idem: true})
 			}
 		}
 	}
@@ -210,6 +221,18 @@ func directedScenario(prop string, c directedCase, rng *rand.Rand) *prodScenario
 		}
 		if c.deep.parts > 1 {
 			sc.Brokers, sc.Parts, sc.ProduceDelayMs = 1, c.deep.parts, c.deep.delayMs
+		}
+		if c.deep.twoTopics {
+			sc.Topics, sc.Parts = []string{"t", "t1"}, 11
+			where := []struct {
+				t string
+				p int32
+			}{{"t", 10}, {"t1", 0}, {"t", 1}, {"t1", 10}}
+			for i := 0; i < 12; i++ {
+				w := where[i%4]
+				sc.Msgs = append(sc.Msgs, &msgSpec{ID: i, Topic: w.t, Part: w.p, N: i / 4, Value: valueFor(i, 3, rng), KeyNil: true, PauseUs: c.deep.pauseUs})
+			}
+			return sc
 		}
 		for i := 0; i < 12; i++ {
 			ms := &msgSpec{ID: i, Topic: "t", Part: 0, N: i, Value: valueFor(i, 3, rng), KeyNil: true, PauseUs: c.deep.pauseUs}
